@@ -235,7 +235,7 @@ def main():
             def cnt(prefix):
                 ids = [b for b in br if b.startswith(prefix)]
                 return sum(1 for b in ids if br[b].get("alarms")), len(ids)
-            f.write("\n# Independently written behaviour-preserving refactors (BN-*, BN2-*, BN3-*, BN4-*)\n\n"
+            f.write("\n# Independently written behaviour-preserving refactors (BN-*, BN2-*, BN3-*, BN4-*, BN5-*)\n\n"
                     "Sixty refactors (three per property) written the same way, with the opposite brief: change the code that implements the\n"
                     "property as a maintainer would (extract helpers, change loop idioms, rename, merge or split functions, tables for switches)\n"
                     "without changing behaviour.  Each directory holds `patch.diff` and the author's `README.agent.md`.  Any alarm on one of them is a\n"
@@ -249,7 +249,10 @@ def main():
                     "A fourth set, BN4-*, asked for a swap of equivalents: the same behaviour through a different mechanism (raw bytes and\n"
                     "ByteOrder calls for binary.Read/Write, a hand-written loop for a library call, closures handed to a shared helper, atomics for a\n"
                     "mutex-guarded flag, bit tricks for arithmetic): 10 of 20 alarmed when first run, several with a rule claiming a violation (DESIGN.md §11.7).\n"
-                    f"Now: BN-* {cnt('BN-')[0]}/{cnt('BN-')[1]}, BN2-* {cnt('BN2-')[0]}/{cnt('BN2-')[1]}, BN3-* {cnt('BN3-')[0]}/{cnt('BN3-')[1]}, BN4-* {cnt('BN4-')[0]}/{cnt('BN4-')[1]} alarm.\n")
+                    "A fifth set, BN5-*, refactors the support code instead of the function the property names first: helper signatures changed and\n"
+                    "every caller adapted, helpers split, merged, moved between files or replaced by the standard-library equivalent, tables turned into\n"
+                    "functions, package state initialised in var declarations instead of init functions: 8 of 20 alarmed when first run (DESIGN.md §11.11).\n"
+                    f"Now: BN-* {cnt('BN-')[0]}/{cnt('BN-')[1]}, BN2-* {cnt('BN2-')[0]}/{cnt('BN2-')[1]}, BN3-* {cnt('BN3-')[0]}/{cnt('BN3-')[1]}, BN4-* {cnt('BN4-')[0]}/{cnt('BN4-')[1]}, BN5-* {cnt('BN5-')[0]}/{cnt('BN5-')[1]} alarm.\n")
     print(len(rows), "meta files written")
 
 if __name__ == "__main__":
